@@ -28,8 +28,8 @@ const (
 func init() {
 	register(Property{ID: "C32", Level: "other", Run: runC32,
 		Technique: "static analysis: sanitizer/dominating-guard classification of every allocation length, slice bound and constant index in the decode functions (SSA), loop-progress rule on loop-carried buffers, extraction and cross-checking of the varint prefix/shift/threshold tables from the four varint functions, AST sibling agreement of marshalSize/marshalTo/unmarshal field sequences, message type tables",
-		Text: "Decides for the six MoQ wire packages: (1) in every decode function (Read/read/Unmarshal/unmarshal and their callees) each make() length that comes from a decoded varint passes a comparison with a constant limit on every path, other lengths are bounded by their static type or constants; each slice bound taken from a decoded varint passes the matching len() test of the same buffer, each bound taken from a callee's consumed count is used only after the callee's error was tested; each constant index into a buffer passes a length test; every loop carries a buffer that is advanced by at least one successfully decoded varint per iteration; no panic, single-value type assertion, Must* call, integer division by a decoded value; (2) the prefix masks/values, payload masks, shifts, sizes and thresholds of varint Read, Unmarshal, MarshalSize and MarshalTo agree for sizes 1-9 and cover the value bits exactly; (3) for every message/structure the wire operations of marshalTo, the size terms of marshalSize (and of the payload-length computation) and the read operations of unmarshal are the same field sequence; (4) the message type constants of controlmessage.Read and of each Marshal agree and the 16-bit length is written and read big-endian; (5) delta-encoded type lists (parameters, properties, SETUP options): on every control-flow path to a write of a type delta varint(X - Y), Y is the X of the most recent earlier delta write of the function and 0 when there is none (in MarshalTo and in MarshalSize), and the decode method of the same type dispatches on a loop-carried sum that starts at 0 and grows by a decoded varint per element. Not decided: value-level round trips beyond field order (e.g. absent-field defaults, lengths above 65535), io.Reader behaviour.",
-		Note: "trusted: io.ReadFull, append growth, Go slice semantics; the consumed-count contract of callee Unmarshal functions is decided for varint.Unmarshal and taken by construction (sums/differences of checked counts) elsewhere"})
+		Text:      "Decides for the six MoQ wire packages: (1) in every decode function (Read/read/Unmarshal/unmarshal and their callees) each make() length that comes from a decoded varint passes a comparison with a constant limit on every path, other lengths are bounded by their static type or constants; each slice bound taken from a decoded varint passes the matching len() test of the same buffer, each bound taken from a callee's consumed count is used only after the callee's error was tested; each constant index into a buffer passes a length test; every loop carries a buffer that is advanced by at least one successfully decoded varint per iteration; no panic, single-value type assertion, Must* call, integer division by a decoded value; (2) the prefix masks/values, payload masks, shifts, sizes and thresholds of varint Read, Unmarshal, MarshalSize and MarshalTo agree for sizes 1-9 and cover the value bits exactly; (3) for every message/structure the wire operations of marshalTo, the size terms of marshalSize (and of the payload-length computation) and the read operations of unmarshal are the same field sequence; (4) the message type constants of controlmessage.Read and of each Marshal agree and the 16-bit length is written and read big-endian; (5) delta-encoded type lists (parameters, properties, SETUP options): on every control-flow path to a write of a type delta varint(X - Y), Y is the X of the most recent earlier delta write of the function and 0 when there is none (in MarshalTo and in MarshalSize), and the decode method of the same type dispatches on a loop-carried sum that starts at 0 and grows by a decoded varint per element. Not decided: value-level round trips beyond field order (e.g. absent-field defaults, lengths above 65535), io.Reader behaviour.",
+		Note:      "trusted: io.ReadFull, append growth, Go slice semantics; the consumed-count contract of callee Unmarshal functions is decided for varint.Unmarshal and taken by construction (sums/differences of checked counts) elsewhere"})
 }
 
 type c32Ctx struct {
